@@ -28,15 +28,17 @@ Theorem C04_failed_not_recorded : forall i j, consistent i = true -> fail_index 
 Proof. exact failed_not_recorded_thm. Qed.
 Print Assumptions C04_failed_not_recorded.
 
-(* transactional DDL and one enclosing transaction: schema, version table and rows exactly as before the command *)
+(* transactional DDL and one enclosing transaction (no autocommit section having committed it): schema, version table
+   and rows exactly as before the command *)
 Theorem C04_all_or_nothing : forall i, i_kind i = TxDDL -> one_txn i = true -> fail_index i <> None ->
-  o_db (txn_run i) = i_db0 i.
+  no_partial_commit i = true -> o_db (txn_run i) = i_db0 i.
 Proof. exact all_or_nothing_thm. Qed.
 Print Assumptions C04_all_or_nothing.
 
 (* transactional DDL, one transaction per migration: exactly the completed migrations are applied and recorded, the
-   failed one leaves no trace *)
+   failed one (if it entered no autocommit section) leaves no trace *)
 Theorem C04_per_migration : forall i j, i_kind i = TxDDL -> one_txn i = false -> fail_index i = Some j ->
+  no_partial_commit i = true ->
   o_db (txn_run i) = match j with
                      | O => i_db0 i
                      | S _ => state_after (firstn j (i_steps i)) (with_version_table (i_db0 i))
@@ -44,7 +46,9 @@ Theorem C04_per_migration : forall i j, i_kind i = TxDDL -> one_txn i = false ->
 Proof. exact per_migration_thm. Qed.
 Print Assumptions C04_per_migration.
 
-(* without transactional DDL (any behaviour of the database): the table records exactly the completed migrations *)
+(* one transaction per migration (any behaviour of the database, with or without autocommit sections, whatever the
+   failing migration committed through one): the table records exactly the completed migrations; in particular a failed
+   downgrade never drops its revision and a failed upgrade never names it *)
 Theorem C04_nontransactional : forall i j, one_txn i = false -> fail_index i = Some j ->
   vrows (o_db (txn_run i)) = rows_after (firstn j (i_steps i)) (vrows (i_db0 i)).
 Proof. exact nontransactional_thm. Qed.
@@ -56,29 +60,52 @@ Theorem C04_success : forall i, consistent i = true -> fail_index i = None ->
 Proof. exact success_thm. Qed.
 Print Assumptions C04_success.
 
+(* the class of the exception (Exception, KeyboardInterrupt, SystemExit) makes no difference *)
+Theorem C04_exception_kind_irrelevant : forall k t p e st d x y,
+  txn_run (mkIn k t p e st d x) = txn_run (mkIn k t p e st d y).
+Proof. exact exc_kind_thm. Qed.
+Print Assumptions C04_exception_kind_irrelevant.
+
 (* the hypothesis `consistent` is needed: transactional_ddl=True on an implicit-commit database records a migration
    although the enclosing "transaction" failed *)
 Definition ex_steps : list step :=
-  [mkStep [DDL (Add 10%N); DML (Add 11%N)] [VIns 1%N]; mkStep [DDL (Add 20%N); DML (Add 21%N)] [VUpd 1%N 2%N]].
+  [mkStep [BStmt (DDL (Add 10%N)); BStmt (DML (Add 11%N))] [VIns 1%N] false;
+   mkStep [BStmt (DDL (Add 20%N)); BRaise; BStmt (DML (Add 21%N))] [VUpd 1%N 2%N] false].
 Definition ex_db0 : dbstate := mkDb [] false [].
 Theorem C04_inconsistent_refuted :
   exists i, consistent i = false /\ ~ C04_holds i (txn_run i).
-Proof. exists (mkIn ImplicitCommitDDL true false false ex_steps (Some (1%nat, FBody 1)) ex_db0). split; [reflexivity|].
-  intros (_ & H & _). specialize (H 1%N). vm_compute in H. destruct H as [H _]. destruct H; auto. Qed.
+Proof. exists (mkIn ImplicitCommitDDL true false false ex_steps ex_db0 ExcException). split; [reflexivity|].
+  intros (_ & _ & H & _). specialize (H 1%N). vm_compute in H. destruct H as [H _]. destruct H; auto. Qed.
 Print Assumptions C04_inconsistent_refuted.
 
 (* ---- non-vacuity ---- *)
 Example C04_all_or_nothing_nonvacuous :
-  let i := mkIn TxDDL true false false ex_steps (Some (1%nat, FBody 1)) ex_db0 in
-  consistent i = true /\ one_txn i = true /\ fail_index i = Some 1%nat /\ o_db (txn_run i) = ex_db0.
+  let i := mkIn TxDDL true false false ex_steps ex_db0 ExcKeyboardInterrupt in
+  consistent i = true /\ one_txn i = true /\ fail_index i = Some 1%nat /\ no_partial_commit i = true /\
+  o_db (txn_run i) = ex_db0.
 Proof. vm_compute. repeat split. Qed.
 Example C04_per_migration_nonvacuous :
-  let i := mkIn TxDDL true true false ex_steps (Some (1%nat, FCallback)) ex_db0 in
-  consistent i = true /\ one_txn i = false /\ fail_index i = Some 1%nat /\
+  let i := mkIn TxDDL true true false
+             [mkStep [BStmt (DDL (Add 10%N)); BStmt (DML (Add 11%N))] [VIns 1%N] false;
+              mkStep [BStmt (DDL (Add 20%N))] [VUpd 1%N 2%N] true] ex_db0 ExcSystemExit in
+  consistent i = true /\ one_txn i = false /\ fail_index i = Some 1%nat /\ no_partial_commit i = true /\
   o_db (txn_run i) = mkDb [11%N; 10%N] true [1%N].
 Proof. vm_compute. repeat split. Qed.
 Example C04_nontransactional_nonvacuous :
-  let i := mkIn Pysqlite false false false ex_steps (Some (1%nat, FBody 2)) ex_db0 in
+  let i := mkIn Pysqlite false false false
+             [mkStep [BStmt (DDL (Add 10%N)); BStmt (DML (Add 11%N))] [VIns 1%N] false;
+              mkStep [BStmt (DDL (Add 20%N)); BStmt (DML (Add 21%N)); BRaise] [VUpd 1%N 2%N] false] ex_db0 ExcException in
   consistent i = true /\ one_txn i = false /\ fail_index i = Some 1%nat /\
   o_db (txn_run i) = mkDb [20%N; 11%N; 10%N] true [1%N].
+Proof. vm_compute. repeat split. Qed.
+(* a downgrade of r2 that drops an object inside an autocommit section and then fails: r2 stays recorded, the section's
+   effect is durable; one transaction per migration and one enclosing transaction alike *)
+Example C04_autocommit_nonvacuous :
+  let st := [mkStep [BStmt (DML (Del 21%N)); BAuto [AStmt (DDL (Del 20%N))]; BRaise] [VUpd 2%N 1%N] false;
+             mkStep [BStmt (DDL (Del 10%N))] [VDel 1%N] false] in
+  let d := mkDb [21%N; 20%N; 10%N] true [2%N] in
+  let i := mkIn TxDDL true true false st d ExcException in
+  let i' := mkIn TxDDL true false false st d ExcException in
+  fail_index i = Some 0%nat /\ no_partial_commit i = false /\ o_db (txn_run i) = mkDb [10%N] true [2%N] /\
+  fail_index i' = Some 0%nat /\ committed_count i' = 0%nat /\ o_db (txn_run i') = mkDb [10%N] true [2%N].
 Proof. vm_compute. repeat split. Qed.
